@@ -86,6 +86,9 @@ package lamport
 //@   props C05 C06
 //@   requires pc != nil
 //@   check [unparsable-file-is-a-missing-clock] n != 1 ==> result == ErrClockNotExist
+// ... an empty file in particular - what an interrupted write leaves most often - is never taken for a clock, old or new:
+// a clock that restarts from nothing is behind the stored entities and no rebuild is triggered for it (C05)
+//@   check [an-empty-file-is-a-missing-clock] result == nil ==> len(content) > 0
 
 // Opening or creating a persisted clock touches the clock's file and a new clock object only.
 //@ func NewPersistedClock
